@@ -9,6 +9,7 @@ import (
 	"strings"
 	"testing"
 
+	"github.com/hedzr/is"
 	"github.com/hedzr/logg/slog"
 	"github.com/hedzr/logg/slog/verifharness/vlib"
 	"pgregory.net/rapid"
@@ -235,12 +236,11 @@ func run(t vlib.TB, test string, c config, k call) {
 	case 2:
 		_ = lg.GetWriterBy(k.R).Close()
 	}
-	debug := c.L == slog.DebugLevel // SetLevel(Debug) switches debug mode on (documented side effect)
 	if k.EP.Pkg {
 		slog.SetDefault(lg)
 	}
 
-	admit := model.Admit(c.L, k.R, debug)
+	admit := model.Admit(c.L, k.R, is.DebugMode()) // the process-wide mode is an input of the rule: read, not predicted (C01 owns how it gets switched)
 	if k.EP.Kind == "verbose" {
 		admit = false
 	}
